@@ -102,7 +102,7 @@ class CleanUnit:
             raise Undecided("clean_command: the selection does not look at the entry's file name; predicate not extractable")
         cond2 = pre2 + cond2
         thorough = tier == "thorough"
-        nbytes = 6 if thorough else 5
+        nbytes = int(os.environ.get("VERIF_C20_NBYTES", "0")) or (6 if thorough else 5)
         alphabet = "c == b'a' || c == b'm' || c == b'M' || c == b'.' || c == b'~'" + (" || c == b' ' || c == 0xC3 || c == 0xA9" if thorough else "")
         lib = HARNESS.replace("PRED", render(cond2, 1)).replace("NBYTES", str(nbytes)).replace("UNWIND", str(nbytes + 3)).replace("ALPHABET", alphabet)
         crate = K.write_crate(Path(workdir) / "kt_clean", "kt_clean", "// GENERATED (K-t) from src/main.rs clean_command\n" + lib)
